@@ -2,11 +2,15 @@
    Models: Model/Weights.v (katdal/vis_flags_weights.py, visdatav4.py excision, h5datav3.py weights) and
    Model/Averager.v (katdal/averager.py).  Numbers: Ext := Fin q | PInf | NInf | NaN over canonical rationals with
    the IEEE rules for special values (no rounding / overflow / signed zero); the averager is over exact rationals.
-   Concrete instances of every hypothesis: Proofs/C15ExamplesP.v. *)
+   Round 2 (second half of this file): the glue around that core - Model/WeightsApi.v (_narrow, the constructor's
+   options / defaults / error branches, lost chunks, preselection, the excision API of visdatav4, the weight selection
+   of h5datav3) and Model/AveragerApi.v (baseline blocking, defaults) - and algebraic laws.
+   Concrete instances of every hypothesis: Proofs/C15ExamplesP.v, Proofs/C15Examples2P.v. *)
 From Coq Require Import ZArith QArith Qabs Qcanon Qround List Bool Arith.
-From KV Require Import Base.Sx Gen.Generated Model.Interp Model.Weights Model.Averager.
+From KV Require Import Base.Sx Gen.Generated Model.Interp Model.Weights Model.Averager Model.WeightsApi Model.AveragerApi.
 From KV Require Import Proofs.WeightsP Proofs.WeightsBlocksP Proofs.WeightsNumP Proofs.AveragerP Proofs.C15TopP
-                       Proofs.C15ExamplesP.
+                       Proofs.C15ExamplesP Proofs.WeightsApiP Proofs.WeightsStoreP Proofs.WeightsLawsP
+                       Proofs.AveragerApiP Proofs.C15Examples2P.
 Import ListNotations.
 Close Scope Q_scope.
 Open Scope nat_scope.
@@ -286,3 +290,406 @@ Theorem avg_defined : forall a T F B timeav chanav flagav,
   average a T F B timeav chanav flagav = None <-> time_factor timeav T = 0 \/ chan_factor chanav F = 0.
 Proof. exact average_defined. Qed.
 Print Assumptions avg_defined.
+
+(* ###################################################################################################### round 2 *)
+(* ================================================================== the lookup arrays as returned (_narrow) *)
+(* the unsigned type chosen by the regenerated if-chain holds every index: nothing wraps around *)
+Theorem lookup_arrays_not_truncated : forall l : list Z, snd (narrow l) = l.
+Proof. exact narrow_lossless. Qed.
+Print Assumptions lookup_arrays_not_truncated.
+
+(* ... for ANY threshold table whose rows accept only values that fit (the condition checked on the regenerated table) *)
+Theorem narrow_any_sound_table : forall table eb l, forallb entry_ok table = true -> snd (narrow_gen table eb l) = l.
+Proof. exact narrow_gen_lossless. Qed.
+Print Assumptions narrow_any_sound_table.
+
+Theorem lookup_dtype_is_first_fit : forall x r, (0 <= zmin_list x r)%Z ->
+  fst (narrow (x :: r)) = match find (narrow_hit (zmax_list x r)) narrow_table with
+                          | Some (_, _, b) => UInt b | None => KeepDtype end.
+Proof. exact narrow_dtype_first. Qed.
+Print Assumptions lookup_dtype_is_first_fit.
+
+(* corrprod_to_autocorr as called: an empty product list is a ValueError (np.array([]) is not integral); a non-empty
+   one gives KeyError exactly when the scan fails, else the three arrays with every value intact *)
+Theorem lookup_api_empty : c2a_api [] = Err ValueError.
+Proof. exact c2a_api_nil. Qed.
+Print Assumptions lookup_api_empty.
+
+Theorem lookup_api_outcomes : forall cps, cps <> [] ->
+  match corrprod_to_autocorr cps with
+  | None => c2a_api cps = Err KeyError
+  | Some (ai, i1, i2) =>
+      exists d1 d2 d3, c2a_api cps = Ok ((d1, map Z.of_nat ai), (d2, map Z.of_nat i1), (d3, map Z.of_nat i2))
+  end.
+Proof. exact c2a_api_spec. Qed.
+Print Assumptions lookup_api_outcomes.
+
+Theorem lookup_api_ok_iff : forall cps, (exists r, c2a_api cps = Ok r) <-> cps <> [] /\ has_autos cps.
+Proof. exact c2a_api_ok_iff. Qed.
+Print Assumptions lookup_api_ok_iff.
+
+(* ================================================================== ChunkStoreVisFlagsWeights.__init__: options *)
+(* a non-empty product list of the right length and van_vleck in {'off', 'autocorr'}: the constructor IS the core
+   model of C15_weights (None = KeyError) *)
+Theorem ctor_is_core : forall cps scaled vvo table vis bchv w bchw wc tch fch,
+  cps <> [] -> vvo <> VOther ->
+  vfw_api (Some cps) scaled vvo table (List.length cps) vis bchv w bchw wc tch fch =
+  match vis_flags_weights cps scaled (vv_arg vvo table) vis bchv w bchw wc tch fch with
+  | Some r => Ok (mkOut (v_vis r) (v_weights r) (Some (v_unscaled r)))
+  | None => Err KeyError
+  end.
+Proof. exact vfw_api_core. Qed.
+Print Assumptions ctor_is_core.
+
+(* corrprods=None: the stored product becomes `weights`, vis untouched, there are NO unscaled weights *)
+Theorem ctor_without_corrprods : forall table B vis bchv w bchw wc tch fch,
+  vfw_api None true VOff table B vis bchv w bchw wc tch fch = Ok (mkOut vis (stored_weights w wc) None).
+Proof. exact vfw_no_corrprods. Qed.
+Print Assumptions ctor_without_corrprods.
+
+Theorem ctor_unscaled_needs_corrprods : forall table B vis bchv w bchw wc tch fch,
+  vfw_api None false VOff table B vis bchv w bchw wc tch fch = Err ValueError.
+Proof. exact vfw_unscaled_without_corrprods. Qed.
+Print Assumptions ctor_unscaled_needs_corrprods.
+
+(* an unknown van_vleck string is refused before anything else is looked at *)
+Theorem ctor_rejects_unknown_van_vleck : forall cps scaled table B vis bchv w bchw wc tch fch,
+  vfw_api cps scaled VOther table B vis bchv w bchw wc tch fch = Err ValueError.
+Proof. exact vfw_bad_van_vleck. Qed.
+Print Assumptions ctor_rejects_unknown_van_vleck.
+
+Theorem ctor_van_vleck_needs_corrprods : forall scaled table B vis bchv w bchw wc tch fch,
+  vfw_api None scaled VAuto table B vis bchv w bchw wc tch fch = Err TypeError.
+Proof. exact vfw_van_vleck_without_corrprods. Qed.
+Print Assumptions ctor_van_vleck_needs_corrprods.
+
+Theorem ctor_wrong_number_of_corrprods : forall cps scaled vvo table B vis bchv w bchw wc tch fch,
+  List.length cps <> B -> vvo <> VOther ->
+  vfw_api (Some cps) scaled vvo table B vis bchv w bchw wc tch fch = Err AssertionError.
+Proof. exact vfw_wrong_length. Qed.
+Print Assumptions ctor_wrong_number_of_corrprods.
+
+Theorem ctor_empty_corrprods : forall scaled vvo table vis bchv w bchw wc tch fch,
+  vvo <> VOther -> vfw_api (Some []) scaled vvo table 0 vis bchv w bchw wc tch fch = Err ValueError.
+Proof. exact vfw_empty_corrprods. Qed.
+Print Assumptions ctor_empty_corrprods.
+
+(* every optional argument left out (defaults regenerated from the signature) *)
+Theorem ctor_defaults : forall B vis bchv w bchw wc tch fch,
+  vfw_api_default B vis bchv w bchw wc tch fch = Ok (mkOut vis (stored_weights w wc) None).
+Proof. exact vfw_defaults. Qed.
+Print Assumptions ctor_defaults.
+
+(* an answer is given ONLY in these situations (everything else is one of the four exceptions) *)
+Theorem ctor_answers_only_when : forall cps scaled vvo table B vis bchv w bchw wc tch fch o,
+  vfw_api cps scaled vvo table B vis bchv w bchw wc tch fch = Ok o ->
+  vvo <> VOther /\
+  match cps with
+  | None => scaled = true /\ vvo = VOff /\ o = mkOut vis (stored_weights w wc) None
+  | Some c => c <> [] /\ List.length c = B /\ has_autos c /\ exists u, o_unscaled o = Some u
+  end.
+Proof. exact vfw_api_ok_cases. Qed.
+Print Assumptions ctor_answers_only_when.
+
+(* ================================================================== lost chunks and preselection *)
+(* the chunk holding a coordinate: the one whose offset range contains it, and only that one *)
+Theorem chunk_of_coordinate : forall ch x, x < Weights.total ch ->
+  let i := chunk_idx ch x in
+  i < List.length ch /\ Weights.total (firstn i ch) <= x < Weights.total (firstn i ch) + nth i ch 0.
+Proof. exact chunk_idx_spec. Qed.
+Print Assumptions chunk_of_coordinate.
+
+Theorem chunk_of_coordinate_unique : forall ch x i, i < List.length ch ->
+  Weights.total (firstn i ch) <= x < Weights.total (firstn i ch) + nth i ch 0 -> chunk_idx ch x = i.
+Proof. exact chunk_idx_unique. Qed.
+Print Assumptions chunk_of_coordinate_unique.
+
+(* what the pipeline sees of the stored visibilities: the fill value (0, regenerated from _default_zero) in a lost
+   chunk, the stored value elsewhere; a preselection only shifts the coordinates *)
+Theorem lost_chunks_read_as_zero : forall vis tchv fchv bchv lostv p T F B,
+  shape3 vis T F B -> presel_ok p T F ->
+  forall t f b, t < presel_T p T -> f < presel_F p F -> b < B ->
+    Weights.get3 (seen_vis vis tchv fchv bchv lostv p) cx_nan t f b =
+    (let t' := presel_t0 p + t in
+     let f' := presel_f0 p + f in
+     if mem3 (chunk_idx tchv t', chunk_idx fchv f', chunk_idx bchv b) lostv then (Fin 0%Qc, Fin 0%Qc)
+     else Weights.get3 vis cx_nan t' f' b).
+Proof. exact seen_vis_get3. Qed.
+Print Assumptions lost_chunks_read_as_zero.
+
+Theorem lost_weight_chunks_read_as_zero : forall w tchw fchw bchw lostw p T F B,
+  shape3 w T F B -> presel_ok p T F ->
+  forall t f b, t < presel_T p T -> f < presel_F p F -> b < B ->
+    Weights.get3 (seen_w w tchw fchw bchw lostw p) NaN t f b =
+    (let t' := presel_t0 p + t in
+     let f' := presel_f0 p + f in
+     if mem3 (chunk_idx tchw t', chunk_idx fchw f', chunk_idx bchw b) lostw then Fin 0%Qc
+     else Weights.get3 w NaN t' f' b).
+Proof. exact seen_w_get3. Qed.
+Print Assumptions lost_weight_chunks_read_as_zero.
+
+Theorem lost_channel_weight_chunks_read_as_zero : forall wc tchc fchc lostc p T F,
+  shape2 wc T F -> presel_ok p T F ->
+  forall t f, t < presel_T p T -> f < presel_F p F ->
+    nth f (nth t (seen_wc wc tchc fchc lostc p) []) NaN =
+    (let t' := presel_t0 p + t in
+     let f' := presel_f0 p + f in
+     if mem2 (chunk_idx tchc t', chunk_idx fchc f') lostc then Fin 0%Qc else nth f' (nth t' wc []) NaN).
+Proof. exact seen_wc_nth. Qed.
+Print Assumptions lost_channel_weight_chunks_read_as_zero.
+
+(* THE WHOLE CONSTRUCTOR ON A STORE: own chunkings of the three stored arrays, any set of lost chunks in each, an
+   optional preselection, both declarations, Van Vleck on or off, any chunking of the result: at every kept
+   coordinate the pointwise specification of C15_weights on the arrays described by the three theorems above *)
+Theorem C15_weights_on_store : forall cps scaled vvo table vis tchv fchv bchv lostv w tchw fchw bchw lostw
+                                      wc tchc fchc lostc p tch fch T F,
+  cps <> [] -> has_autos cps -> vvo <> VOther ->
+  shape3 vis T F (List.length cps) -> shape3 w T F (List.length cps) -> shape2 wc T F -> presel_ok p T F ->
+  Weights.total tch = presel_T p T -> Weights.total fch = presel_F p F ->
+  Weights.total bchv = List.length cps -> Weights.total bchw = List.length cps ->
+  let sv := seen_vis vis tchv fchv bchv lostv p in
+  let sw := seen_w w tchw fchw bchw lostw p in
+  let sc := seen_wc wc tchc fchc lostc p in
+  exists o u,
+    vfw_store (Some cps) scaled vvo table (List.length cps) vis (tchv, fchv, bchv) lostv w (tchw, fchw, bchw) lostw
+              wc (tchc, fchc) lostc p tch fch = Ok o /\ o_unscaled o = Some u /\
+    forall t f b, t < presel_T p T -> f < presel_F p F -> b < List.length cps ->
+      let a1 := auto_re cps (o_vis o) t f (fst (cp_at cps b)) in
+      let a2 := auto_re cps (o_vis o) t f (snd (cp_at cps b)) in
+      Weights.get3 (o_vis o) cx_nan t f b = vv_vis (vv_arg vvo table) cps sv t f b /\
+      Weights.get3 (o_weights o) NaN t f b = spec_weight scaled a1 a2 (Weights.get3 sw NaN t f b) (nth f (nth t sc []) NaN) /\
+      Weights.get3 u NaN t f b = spec_unscaled scaled a1 a2 (Weights.get3 sw NaN t f b) (nth f (nth t sc []) NaN).
+Proof. exact vfw_store_pointwise. Qed.
+Print Assumptions C15_weights_on_store.
+
+(* unscaled stored weights: the chunk of the visibilities that holds an autocorrelation of product b is lost ->
+   the tiny weight (the autocorrelation reads as zero) *)
+Theorem lost_autocorrelation_gives_tiny_weight :
+  forall cps table vis w wc tchv fchv bchv tchw fchw bchw tchc fchc lostv lostw lostc T F,
+  cps <> [] -> has_autos cps ->
+  shape3 vis T F (List.length cps) -> shape3 w T F (List.length cps) -> shape2 wc T F ->
+  Weights.total bchv = List.length cps -> Weights.total bchw = List.length cps ->
+  forall p tch fch, presel_ok p T F -> Weights.total tch = presel_T p T -> Weights.total fch = presel_F p F ->
+  exists o,
+    vfw_store (Some cps) false VOff table (List.length cps) vis (tchv, fchv, bchv) lostv w (tchw, fchw, bchw) lostw
+              wc (tchc, fchc) lostc p tch fch = Ok o /\
+    forall t f b a pa, t < presel_T p T -> f < presel_F p F -> b < List.length cps ->
+      a = fst (cp_at cps b) \/ a = snd (cp_at cps b) -> last_auto cps a = Some pa ->
+      mem3 (chunk_idx tchv (presel_t0 p + t), chunk_idx fchv (presel_f0 p + f), chunk_idx bchv pa) lostv = true ->
+      Weights.get3 (o_weights o) NaN t f b =
+      emul (Fin bad_weight) (emul (Weights.get3 (seen_w w tchw fchw bchw lostw p) NaN t f b)
+                                  (nth f (nth t (seen_wc wc tchc fchc lostc p) []) NaN)).
+Proof. exact lost_vis_chunk_tiny_weight. Qed.
+Print Assumptions lost_autocorrelation_gives_tiny_weight.
+
+(* a lost chunk of the weights: weight and unscaled weight exactly 0 there, whatever the rest is *)
+Theorem lost_weights_give_zero :
+  forall cps table vis w wc tchv fchv bchv tchw fchw bchw tchc fchc lostv lostw lostc T F,
+  cps <> [] -> has_autos cps ->
+  shape3 vis T F (List.length cps) -> shape3 w T F (List.length cps) -> shape2 wc T F ->
+  Weights.total bchv = List.length cps -> Weights.total bchw = List.length cps ->
+  forall scaled vvo p tch fch, vvo <> VOther -> presel_ok p T F ->
+  Weights.total tch = presel_T p T -> Weights.total fch = presel_F p F ->
+  exists o u,
+    vfw_store (Some cps) scaled vvo table (List.length cps) vis (tchv, fchv, bchv) lostv w (tchw, fchw, bchw) lostw
+              wc (tchc, fchc) lostc p tch fch = Ok o /\ o_unscaled o = Some u /\
+    forall t f b (c : Qc), t < presel_T p T -> f < presel_F p F -> b < List.length cps ->
+      mem3 (chunk_idx tchw (presel_t0 p + t), chunk_idx fchw (presel_f0 p + f), chunk_idx bchw b) lostw = true ->
+      nth f (nth t (seen_wc wc tchc fchc lostc p) []) NaN = Fin c ->
+      Weights.get3 (o_weights o) NaN t f b = Fin 0%Qc /\ Weights.get3 u NaN t f b = Fin 0%Qc.
+Proof. exact lost_weights_chunk_zero. Qed.
+Print Assumptions lost_weights_give_zero.
+
+(* opening with preselect_index = (dumps t0..t0+tn, channels f0..f0+fn) gives at every kept coordinate what the
+   full data set gives there - vis, weights and unscaled weights, whatever the chunkings of the two calls *)
+Theorem preselection_commutes :
+  forall cps table vis w wc tchv fchv bchv tchw fchw bchw tchc fchc lostv lostw lostc T F,
+  cps <> [] -> has_autos cps ->
+  shape3 vis T F (List.length cps) -> shape3 w T F (List.length cps) -> shape2 wc T F ->
+  Weights.total bchv = List.length cps -> Weights.total bchw = List.length cps ->
+  forall scaled vvo t0 tn f0 fn tch fch tch' fch', vvo <> VOther ->
+  t0 + tn <= T -> f0 + fn <= F -> Weights.total tch = T -> Weights.total fch = F ->
+  Weights.total tch' = tn -> Weights.total fch' = fn ->
+  exists o u o' u',
+    vfw_store (Some cps) scaled vvo table (List.length cps) vis (tchv, fchv, bchv) lostv w (tchw, fchw, bchw) lostw
+              wc (tchc, fchc) lostc None tch fch = Ok o /\ o_unscaled o = Some u /\
+    vfw_store (Some cps) scaled vvo table (List.length cps) vis (tchv, fchv, bchv) lostv w (tchw, fchw, bchw) lostw
+              wc (tchc, fchc) lostc (Some (t0, tn, f0, fn)) tch' fch' = Ok o' /\ o_unscaled o' = Some u' /\
+    forall t f b, t < tn -> f < fn -> b < List.length cps ->
+      Weights.get3 (o_vis o') cx_nan t f b = Weights.get3 (o_vis o) cx_nan (t0 + t) (f0 + f) b /\
+      Weights.get3 (o_weights o') NaN t f b = Weights.get3 (o_weights o) NaN (t0 + t) (f0 + f) b /\
+      Weights.get3 u' NaN t f b = Weights.get3 u NaN (t0 + t) (f0 + f) b.
+Proof. exact preselect_commutes. Qed.
+Print Assumptions preselection_commutes.
+
+(* ================================================================== laws of the scaling kernel *)
+Theorem weights_symmetric_in_inputs : forall g d a1 a2 w, power_scale_gen g d a1 a2 w = power_scale_gen g d a2 a1 w.
+Proof. exact power_scale_symmetric. Qed.
+Print Assumptions weights_symmetric_in_inputs.
+
+(* the point of the tiny constant: a non-zero stored weight NEVER becomes weight 0, whatever the autocorrelations *)
+Theorem scaled_weight_is_never_zero : forall a1 a2 (q : Qc), q <> 0%Qc -> power_scale true a1 a2 (Fin q) <> Fin 0%Qc.
+Proof. exact scaled_weight_never_zero. Qed.
+Print Assumptions scaled_weight_is_never_zero.
+
+Theorem scaled_weight_stays_positive : forall a1 a2 (q : Qc), nonneg_auto a1 -> nonneg_auto a2 -> (0 < q)%Qc ->
+  exists r, power_scale true a1 a2 (Fin q) = Fin r /\ (0 < r)%Qc.
+Proof. exact scaled_weight_positive. Qed.
+Print Assumptions scaled_weight_stays_positive.
+
+(* weights / unscaled_weights are inverse to each other on finite non-zero powers *)
+Theorem scaling_roundtrip : forall (x y q : Qc), x <> 0%Qc -> y <> 0%Qc ->
+  power_scale false (Fin x) (Fin y) (power_scale true (Fin x) (Fin y) (Fin q)) = Fin q /\
+  power_scale true (Fin x) (Fin y) (power_scale false (Fin x) (Fin y) (Fin q)) = Fin q.
+Proof. exact scale_unscale_roundtrip. Qed.
+Print Assumptions scaling_roundtrip.
+
+(* ================================================================== excision: laws and availability *)
+Theorem excision_of_whole_dumps : forall n k m, (0 < n)%Z -> (0 < k)%Z ->
+  excision n k (Fin (ZQc (m * n))) = Fin (1 - ZQc m / ZQc k)%Qc.
+Proof. exact excision_whole_dumps. Qed.
+Print Assumptions excision_of_whole_dumps.
+
+Theorem excision_nothing_excised : forall n k, (0 < n)%Z -> (0 < k)%Z ->
+  excision n k (Fin (ZQc (accs_per_dump n k))) = Fin 0%Qc.
+Proof. exact excision_full_weight. Qed.
+Print Assumptions excision_nothing_excised.
+
+Theorem excision_everything_excised : forall n k, (0 < n)%Z -> (0 < k)%Z -> excision n k (Fin 0%Qc) = Fin 1%Qc.
+Proof. exact excision_zero_weight. Qed.
+Print Assumptions excision_everything_excised.
+
+Theorem rounding_to_dumps_idempotent : forall n (w : Qc), (0 < n)%Z ->
+  rhe (ZQc (rhe (w / ZQc n)) * ZQc n / ZQc n)%Qc = rhe (w / ZQc n)%Qc.
+Proof. exact integer_cbf_dumps_idempotent. Qed.
+Print Assumptions rounding_to_dumps_idempotent.
+
+Theorem rounding_monotone : forall q q' : Q, (q <= q')%Q -> (rheQ q <= rheQ q')%Z.
+Proof. exact rheQ_mono. Qed.
+Print Assumptions rounding_monotone.
+
+Theorem excision_antitone : forall n k (w w' : Qc), (0 < n)%Z -> (0 < k)%Z -> (w <= w')%Qc ->
+  (spec_excision n k w' <= spec_excision n k w)%Qc.
+Proof. exact excision_monotone. Qed.
+Print Assumptions excision_antitone.
+
+(* _cbf_attrs: every one of the six look-ups is needed (scale_factor_timestamp included) *)
+Theorem cbf_attributes_all_needed : forall (s0 : option unit) it n f0 ins sft r,
+  cbf_attrs s0 it n f0 ins sft = Some r <->
+  s0 <> None /\ f0 <> None /\ ins <> None /\ sft <> None /\ exists i m, it = Some i /\ n = Some m /\ r = (i, m).
+Proof. exact (@cbf_attrs_some_iff unit). Qed.
+Print Assumptions cbf_attributes_all_needed.
+
+(* d.excision answers iff there are CBF attributes AND unscaled weights; otherwise ValueError *)
+Theorem excision_available_iff : forall dp c u, (exists r, excision_api dp c u = Ok r) <-> c <> None /\ u <> None.
+Proof. exact excision_api_ok_iff. Qed.
+Print Assumptions excision_available_iff.
+
+Theorem excision_unavailable_is_error : forall dp c u, c = None \/ u = None -> excision_api dp c u = Err ValueError.
+Proof. exact excision_api_unavailable. Qed.
+Print Assumptions excision_unavailable_is_error.
+
+Theorem excision_cellwise : forall dp cdp n u r t f b,
+  excision_api dp (Some (cdp, n)) (Some u) = Ok r ->
+  Weights.get3 r (excision n (cbf_dumps dp cdp) NaN) t f b = excision n (cbf_dumps dp cdp) (Weights.get3 u NaN t f b).
+Proof. exact excision_api_pointwise. Qed.
+Print Assumptions excision_cellwise.
+
+Theorem accumulations_per_dump_value : forall dp c,
+  accumulations_per_dump dp c = match c with Some (cdp, n) => Some (n * cbf_dumps dp cdp)%Z | None => None end.
+Proof. exact accumulations_per_dump_spec. Qed.
+Print Assumptions accumulations_per_dump_value.
+
+Theorem excision_without_corrprods : forall dp c table B vis bchv w bchw wc tch fch,
+  v4_excision dp c (vfw_api None true VOff table B vis bchv w bchw wc tch fch) = Err ValueError.
+Proof. exact v4_excision_without_corrprods. Qed.
+Print Assumptions excision_without_corrprods.
+
+(* ================================================================== HDF5 v3: dummy values and selection *)
+(* with the dummy values regenerated from h5datav3.py the model is the one of v3_weights above *)
+Theorem v3_dummy_values : forall sel hw hwc w wc, v3_weight_gen sel hw hwc w wc = v3_weight sel hw hwc w wc.
+Proof. exact v3_weight_gen_eq. Qed.
+Print Assumptions v3_dummy_values.
+
+Theorem v3_selection_iff : forall known s,
+  v3_selected known s = true <-> exists n, In n (sel_names known s) /\ In n known.
+Proof. exact v3_selected_iff. Qed.
+Print Assumptions v3_selection_iff.
+
+Theorem v3_weights_under_request : forall known s hw hwc w wc,
+  v3_weight_req known s hw hwc w wc = if v3_selected known s then emul (v3_read hw w) (v3_read hwc wc) else Fin 1%Qc.
+Proof. exact v3_weight_req_spec. Qed.
+Print Assumptions v3_weights_under_request.
+
+Theorem v3_select_all_selects : forall known, known <> [] -> v3_selected known SelAll = true.
+Proof. exact v3_select_all. Qed.
+Print Assumptions v3_select_all_selects.
+
+(* ================================================================== averager: as written, defaults, laws *)
+(* the baselines are processed in blocks with re-initialised buffers: for EVERY positive block size that is the
+   per-baseline kernel *)
+Theorem avg_baseline_blocks_invisible : forall bl_step a nt nc nb ta ca fl, bl_step <> 0 ->
+  average_kernel_blocked true bl_step a nt nc nb ta ca fl = average_kernel a nt nc nb ta ca fl.
+Proof. exact average_kernel_blocked_spec. Qed.
+Print Assumptions avg_baseline_blocks_invisible.
+
+(* average_visibilities as written (regenerated block size and initialisation place) = the model of avg_bins *)
+Theorem avg_as_written : forall a T F B timeav chanav flagav,
+  average_api a T F B timeav chanav flagav = average a T F B timeav chanav flagav.
+Proof. exact average_api_eq. Qed.
+Print Assumptions avg_as_written.
+
+Theorem avg_defaults : forall a T F B,
+  average_default a T F B = average a T F B averager_default_timeav averager_default_chanav averager_default_flagav.
+Proof. exact average_default_eq. Qed.
+Print Assumptions avg_defaults.
+
+(* factors 1 x 1: every sample comes back; a flagged one with weight 0 *)
+Theorem avg_single_sample_unflagged : forall flagav v (w : Qc), w <> 0%Qc ->
+  spec_bin flagav [(v, w, false)] = (v, w, false).
+Proof. exact avg_single_unflagged. Qed.
+Print Assumptions avg_single_sample_unflagged.
+
+Theorem avg_single_sample_flagged : forall flagav v (w : Qc), spec_bin flagav [(v, w, true)] = (v, 0%Qc, true).
+Proof. exact avg_single_flagged. Qed.
+Print Assumptions avg_single_sample_flagged.
+
+Theorem avg_flag_and_implies_or : forall l, l <> [] -> forallb s_flag l = true -> existsb s_flag l = true.
+Proof. exact avg_and_implies_or. Qed.
+Print Assumptions avg_flag_and_implies_or.
+
+(* WHAT MUST NOT MATTER: visibility and weight of flagged samples, as long as unflagged weight is left *)
+Theorem avg_flagged_values_do_not_matter : forall flagav l l', same_unflagged l l' ->
+  qsum (map s_w (unflagged l)) <> 0%Qc -> spec_bin flagav l' = spec_bin flagav l.
+Proof. exact avg_flagged_samples_irrelevant. Qed.
+Print Assumptions avg_flagged_values_do_not_matter.
+
+Theorem avg_common_weight_factor : forall flagav (c : Qc) l, c <> 0%Qc ->
+  spec_bin flagav (map (scale_w c) l) = scale_w c (spec_bin flagav l).
+Proof. exact avg_weight_scaling. Qed.
+Print Assumptions avg_common_weight_factor.
+
+(* HDF5 v3 under EVERY second-stage index (per-axis lists of kept positions: slices, integers, lists, masks, on one,
+   two or three axes at once, repeated / unsorted positions included): element (i, j, k) of d.weights[kt, kf, kb] is
+   the product of the two stored arrays at (kt[i], kf[j], kb[k]) resp. (kt[i], kf[j]) - absent arrays reading one *)
+Theorem v3_weights_any_index : forall sel hw hwc w wc kt kf kb,
+  List.length (v3_weights_indexed sel hw hwc w wc kt kf kb) = List.length kt /\
+  forall i j k, i < List.length kt -> j < List.length kf -> k < List.length kb ->
+    List.length (nth i (v3_weights_indexed sel hw hwc w wc kt kf kb) []) = List.length kf /\
+    List.length (nth j (nth i (v3_weights_indexed sel hw hwc w wc kt kf kb) []) []) = List.length kb /\
+    Weights.get3 (v3_weights_indexed sel hw hwc w wc kt kf kb) NaN i j k =
+    v3_weight sel hw hwc (Weights.get3 w NaN (nth i kt 0) (nth j kf 0) (nth k kb 0))
+                         (nth (nth j kf 0) (nth (nth i kt 0) wc []) NaN).
+Proof. exact v3_weights_outer. Qed.
+Print Assumptions v3_weights_any_index.
+
+(* defaults that the documentation / the property fix: the kernel divides when `divide` is left out; the averaged flag
+   is the AND of the bin unless flagav is asked for *)
+Theorem kernel_default_direction : forall g a1 a2 w,
+  power_scale_gen g weights_default_divide a1 a2 w = power_scale_gen g true a1 a2 w.
+Proof. intros g a1 a2 w. rewrite default_direction_divides. reflexivity. Qed.
+Print Assumptions kernel_default_direction.
+
+Theorem avg_default_flag_is_and : averager_default_flagav = false.
+Proof. exact default_flagav_is_and. Qed.
+Print Assumptions avg_default_flag_is_and.
